@@ -54,6 +54,17 @@ pub fn evaluate_constexpr(
     })
 }
 
+/// Make an untyped integer literal from an exact result
+///
+/// A value that can not be written as a (negated) 64-bit literal can not be represented in the output
+fn int_literal(value: i128) -> Result<ir::Constant, ()> {
+    if value.unsigned_abs() <= u64::MAX as u128 {
+        Ok(ir::Constant::IntLiteral(value))
+    } else {
+        Err(())
+    }
+}
+
 /// Evaluate an operator
 fn evaluate_operator(
     op: &ir::IntrinsicOp,
@@ -76,23 +87,23 @@ fn evaluate_operator(
     }
     let result = match *op {
         ir::IntrinsicOp::PrefixIncrement => match arg_values[0] {
-            ir::Constant::Int32(input) => ir::Constant::Int32(input + 1),
-            ir::Constant::UInt32(input) => ir::Constant::UInt32(input + 1),
+            ir::Constant::Int32(input) => ir::Constant::Int32(input.wrapping_add(1)),
+            ir::Constant::UInt32(input) => ir::Constant::UInt32(input.wrapping_add(1)),
             _ => return Err(()),
         },
         ir::IntrinsicOp::PrefixDecrement => match arg_values[0] {
-            ir::Constant::Int32(input) => ir::Constant::Int32(input - 1),
-            ir::Constant::UInt32(input) => ir::Constant::UInt32(input - 1),
+            ir::Constant::Int32(input) => ir::Constant::Int32(input.wrapping_sub(1)),
+            ir::Constant::UInt32(input) => ir::Constant::UInt32(input.wrapping_sub(1)),
             _ => return Err(()),
         },
         ir::IntrinsicOp::PostfixIncrement => match arg_values[0] {
-            ir::Constant::Int32(input) => ir::Constant::Int32(input + 1),
-            ir::Constant::UInt32(input) => ir::Constant::UInt32(input + 1),
+            ir::Constant::Int32(input) => ir::Constant::Int32(input.wrapping_add(1)),
+            ir::Constant::UInt32(input) => ir::Constant::UInt32(input.wrapping_add(1)),
             _ => return Err(()),
         },
         ir::IntrinsicOp::PostfixDecrement => match arg_values[0] {
-            ir::Constant::Int32(input) => ir::Constant::Int32(input - 1),
-            ir::Constant::UInt32(input) => ir::Constant::UInt32(input - 1),
+            ir::Constant::Int32(input) => ir::Constant::Int32(input.wrapping_sub(1)),
+            ir::Constant::UInt32(input) => ir::Constant::UInt32(input.wrapping_sub(1)),
             _ => return Err(()),
         },
         ir::IntrinsicOp::Plus => match arg_values[0] {
@@ -102,8 +113,11 @@ fn evaluate_operator(
             ref value => value.clone(),
         },
         ir::IntrinsicOp::Minus => match arg_values[0] {
-            ir::Constant::Int32(input) => ir::Constant::Int32(-input),
-            ir::Constant::IntLiteral(input) => ir::Constant::IntLiteral(-input),
+            ir::Constant::Int32(input) => ir::Constant::Int32(input.wrapping_neg()),
+            ir::Constant::IntLiteral(input) => match input.checked_neg() {
+                Some(v) => int_literal(v)?,
+                None => return Err(()),
+            },
             ir::Constant::Float16(input) => ir::Constant::Float16(-input),
             ir::Constant::FloatLiteral(input) => ir::Constant::FloatLiteral(-input),
             ir::Constant::Float32(input) => ir::Constant::Float32(-input),
@@ -124,31 +138,52 @@ fn evaluate_operator(
         },
         ir::IntrinsicOp::Add => match (&arg_values[0], &arg_values[1]) {
             (ir::Constant::IntLiteral(lhs), ir::Constant::IntLiteral(rhs)) => {
-                ir::Constant::IntLiteral(lhs + rhs)
+                // Untyped literals are exact - a value that does not fit is not a constant
+                match lhs.checked_add(*rhs) {
+                    Some(v) => int_literal(v)?,
+                    None => return Err(()),
+                }
             }
-            (ir::Constant::Int32(lhs), ir::Constant::Int32(rhs)) => ir::Constant::Int32(lhs + rhs),
+            // 32-bit integers wrap
+            (ir::Constant::Int32(lhs), ir::Constant::Int32(rhs)) => {
+                ir::Constant::Int32(lhs.wrapping_add(*rhs))
+            }
             (ir::Constant::UInt32(lhs), ir::Constant::UInt32(rhs)) => {
-                ir::Constant::UInt32(lhs + rhs)
+                ir::Constant::UInt32(lhs.wrapping_add(*rhs))
             }
             _ => return Err(()),
         },
         ir::IntrinsicOp::Subtract => match (&arg_values[0], &arg_values[1]) {
             (ir::Constant::IntLiteral(lhs), ir::Constant::IntLiteral(rhs)) => {
-                ir::Constant::IntLiteral(lhs - rhs)
+                // Untyped literals are exact - a value that does not fit is not a constant
+                match lhs.checked_sub(*rhs) {
+                    Some(v) => int_literal(v)?,
+                    None => return Err(()),
+                }
             }
-            (ir::Constant::Int32(lhs), ir::Constant::Int32(rhs)) => ir::Constant::Int32(lhs - rhs),
+            // 32-bit integers wrap
+            (ir::Constant::Int32(lhs), ir::Constant::Int32(rhs)) => {
+                ir::Constant::Int32(lhs.wrapping_sub(*rhs))
+            }
             (ir::Constant::UInt32(lhs), ir::Constant::UInt32(rhs)) => {
-                ir::Constant::UInt32(lhs - rhs)
+                ir::Constant::UInt32(lhs.wrapping_sub(*rhs))
             }
             _ => return Err(()),
         },
         ir::IntrinsicOp::Multiply => match (&arg_values[0], &arg_values[1]) {
             (ir::Constant::IntLiteral(lhs), ir::Constant::IntLiteral(rhs)) => {
-                ir::Constant::IntLiteral(lhs * rhs)
+                // Untyped literals are exact - a value that does not fit is not a constant
+                match lhs.checked_mul(*rhs) {
+                    Some(v) => int_literal(v)?,
+                    None => return Err(()),
+                }
             }
-            (ir::Constant::Int32(lhs), ir::Constant::Int32(rhs)) => ir::Constant::Int32(lhs * rhs),
+            // 32-bit integers wrap
+            (ir::Constant::Int32(lhs), ir::Constant::Int32(rhs)) => {
+                ir::Constant::Int32(lhs.wrapping_mul(*rhs))
+            }
             (ir::Constant::UInt32(lhs), ir::Constant::UInt32(rhs)) => {
-                ir::Constant::UInt32(lhs * rhs)
+                ir::Constant::UInt32(lhs.wrapping_mul(*rhs))
             }
             _ => return Err(()),
         },
@@ -160,10 +195,10 @@ fn evaluate_operator(
                 })
             }
             (ir::Constant::Int32(lhs), ir::Constant::Int32(rhs)) => {
-                ir::Constant::Int32(match lhs.checked_div(*rhs) {
-                    Some(v) => v,
-                    None => return Err(()),
-                })
+                if *rhs == 0 {
+                    return Err(());
+                }
+                ir::Constant::Int32(lhs.wrapping_div(*rhs))
             }
             (ir::Constant::UInt32(lhs), ir::Constant::UInt32(rhs)) => {
                 ir::Constant::UInt32(match lhs.checked_div(*rhs) {
@@ -184,7 +219,7 @@ fn evaluate_operator(
                 if *rhs == 0 {
                     return Err(());
                 }
-                ir::Constant::Int32(lhs % rhs)
+                ir::Constant::Int32(lhs.wrapping_rem(*rhs))
             }
             (ir::Constant::UInt32(lhs), ir::Constant::UInt32(rhs)) => {
                 if *rhs == 0 {
@@ -196,21 +231,37 @@ fn evaluate_operator(
         },
         ir::IntrinsicOp::LeftShift => match (&arg_values[0], &arg_values[1]) {
             (ir::Constant::IntLiteral(lhs), ir::Constant::IntLiteral(rhs)) => {
-                ir::Constant::IntLiteral(lhs << rhs)
+                // Untyped literals are exact - a value that does not fit is not a constant
+                match u32::try_from(*rhs) {
+                    Ok(amount) if amount < 64 => match lhs.checked_mul(1i128 << amount) {
+                        Some(v) => int_literal(v)?,
+                        None => return Err(()),
+                    },
+                    _ => return Err(()),
+                }
             }
-            (ir::Constant::Int32(lhs), ir::Constant::Int32(rhs)) => ir::Constant::Int32(lhs << rhs),
+            // 32-bit shifts use the low five bits of the shift amount
+            (ir::Constant::Int32(lhs), ir::Constant::Int32(rhs)) => {
+                ir::Constant::Int32(lhs.wrapping_shl(*rhs as u32))
+            }
             (ir::Constant::UInt32(lhs), ir::Constant::UInt32(rhs)) => {
-                ir::Constant::UInt32(lhs << rhs)
+                ir::Constant::UInt32(lhs.wrapping_shl(*rhs))
             }
             _ => return Err(()),
         },
         ir::IntrinsicOp::RightShift => match (&arg_values[0], &arg_values[1]) {
             (ir::Constant::IntLiteral(lhs), ir::Constant::IntLiteral(rhs)) => {
-                ir::Constant::IntLiteral(lhs >> rhs)
+                match u32::try_from(*rhs) {
+                    Ok(amount) if amount < 128 => ir::Constant::IntLiteral(lhs >> amount),
+                    _ => return Err(()),
+                }
             }
-            (ir::Constant::Int32(lhs), ir::Constant::Int32(rhs)) => ir::Constant::Int32(lhs >> rhs),
+            // 32-bit shifts use the low five bits of the shift amount
+            (ir::Constant::Int32(lhs), ir::Constant::Int32(rhs)) => {
+                ir::Constant::Int32(lhs.wrapping_shr(*rhs as u32))
+            }
             (ir::Constant::UInt32(lhs), ir::Constant::UInt32(rhs)) => {
-                ir::Constant::UInt32(lhs >> rhs)
+                ir::Constant::UInt32(lhs.wrapping_shr(*rhs))
             }
             _ => return Err(()),
         },
